@@ -62,6 +62,9 @@ type MuxMon struct {
 }
 
 func NewMuxMon(period int) *MuxMon {
+	if period == 0 {
+		period = 40 // the default retransmit period (README / MuxerOptTablesRetransmitPeriod documentation)
+	}
 	return &MuxMon{Period: period, LastCC: map[uint16]int{}, LastPMTVer: -1, LastPATVer: -1, Lo: period, Hi: period}
 }
 
@@ -197,6 +200,24 @@ func (m *MuxMon) Step(h *MuxH, i int) (vs []Viol) {
 			delete(m.LastCC, pid)
 		}
 		m.Dirty = true
+		return
+	case "churn":
+		if c.Err != nil {
+			add("C17", "add-rejected", "adding / removing a stream with an automatically assigned PID failed: %v", c.Err)
+		}
+		for _, pid := range c.Churned {
+			if isReservedPID(pid) || pid == 0xffff {
+				add("C17", "auto-pid-reserved", "automatically assigned PID %#x lies in the reserved PSI/SI/null range (or no PID was assigned)", pid)
+				break
+			}
+			if m.find(pid) >= 0 {
+				add("C17", "auto-pid-duplicate", "automatically assigned PID %#x is already in use", pid)
+				break
+			}
+		}
+		if len(c.Churned) > 0 {
+			m.Dirty = true
+		}
 		return
 	case "rm":
 		k := m.find(c.Op.PID)
